@@ -131,9 +131,9 @@ Proof.
 Qed.
 
 (* ---- projections of the setters ------------------------------------------------------------------ *)
-Ltac ss := cbn [size items inflight stopped waiting tok lock prods cancelled results acc hand fin
+Ltac ss := cbn [size items inflight stopped waiting tok lock prods cancelled results acc hand fin pool held nobj pick
                 set_size set_items set_inflight set_stopped set_waiting set_tok set_lock set_prods
-                set_cancelled set_results set_acc set_hand set_fin setp fst snd] in *.
+                set_cancelled set_results set_acc set_hand set_fin set_pool set_held set_nobj set_pick setp fst snd] in *.
 
 (* destruct the innermost match of the goal *)
 Ltac dmatch :=
@@ -146,7 +146,7 @@ Ltac dmatch :=
   end.
 
 Ltac unfold_step :=
-  unfold step, offer, try_add, enqueue, read, done, signal, deliver, handoff, find_res, lock_free.
+  unfold step, offer, try_add, enqueue, read, done, signal, deliver, handoff, find_res, lock_free, pool_get, pool_put.
 
 (* goal:  step c s l = Some (s', z) -> G s'   ==>  one goal per path through the code *)
 Ltac step_cases :=
